@@ -14,6 +14,8 @@ mod vm;
 mod vo;
 #[path = "../validate_abs.rs"]
 mod va;
+#[path = "../validate_certs.rs"]
+mod vcert;
 use pallas_traverse::Era;
 use pallas_validate::utils::MultiEraProtocolParameters as PP;
 use vc::*;
@@ -272,7 +274,7 @@ fn main() {
             let o = observe(&tx, metx, utxos, env, &s.cs, None);
             let term = if args.oracle_only { String::new() } else {
                 let bw: Vec<pallas_primitives::byron::Twit> = if let AnyTx::Byron(p) = &tx { p.witness.iter().cloned().collect() } else { vec![] };
-                format!("(true,{},{},{},{},{})", va::tx_term(&tx, metx, utxos, env, &o), va::utxo_term(utxos, &bw), va::env_term(env), o.e2e.coq(), coq_list(&o.checks, |c| c.1.coq()))
+                format!("(true,{},{},{},{},{})", va::tx_term(&tx, metx, utxos, env, &o, &s.cs, s.counts), va::utxo_term(utxos, &bw), va::env_term(env), o.e2e.coq(), coq_list(&o.checks, |c| c.1.coq()))
             };
             (fam_name(&tx), o, term)
         });
